@@ -16,4 +16,4 @@ for _s in (C01(), C02(), C03(), C04(), C05(), C06(), C07(), C08(), C09(), C10(),
 # the larger space is built (spec.shards("thorough")) but every such run surfaces further
 # pinned-tree defect classes that must be triaged into known_findings.json before it may be
 # registered (a check that raises an alarm on the unchanged tree counts as broken).
-THOROUGH_VERIFIED = {"C12", "C13", "C14", "C15", "C17", "C18", "C19"}
+THOROUGH_VERIFIED = {"C10", "C12", "C13", "C14", "C15", "C17", "C18", "C19"}
